@@ -9,7 +9,8 @@ Streams
   value      attribute values through the real BoundedAttributes and the real convert_value;
   auth       generated auth configurations (no provider / "" / BasicAuthProvider with, without, partial credentials /
              a custom provider class) x sequences of LongPoll.poll and PushService._push_task on a fake channel that
-             records request + metadata;
+             records request + metadata keyword, and (1 in 5) through the real GRPCService channel to an in-process
+             loopback gRPC server that records what really arrives;
   labelled known-finding streams: lone surrogate in a text, attribute int beyond int64.  (None inside a sequence
              attribute is judged normally: it must arrive as an empty value at its position.)
 """
@@ -29,7 +30,7 @@ EXTRACT = ['wire']
 LEAN_TARGETS = ['DeepModel.Props.C08']
 AUDIT = 'DeepModel/Audit/C08.lean'
 DRIVER = 'DeepModel/Driver/C08.lean'
-BUDGET = {'quick': 1200, 'thorough': 9000}
+BUDGET = {'quick': 1200, 'thorough': 25000}
 TIME = {'quick': 75, 'thorough': 800}
 RULE = ('snapshot: 1-7 generated locals (ints incl. > 64 bit, floats incl. nan/inf, bools, None, str incl. non-BMP and '
         'longer than the string limit, bytes, nested list/tuple/set/dict, objects with public/_protected/__private '
@@ -389,10 +390,6 @@ def host_functions(names, nested):
     return _host_cache[key]
 
 
-class Deco:
-    pass
-
-
 def make_deco(attrs):
     from deep.api.plugin import SnapshotDecorator
     from deep.api.attributes import BoundedAttributes
@@ -514,6 +511,44 @@ class FakeChannel:
         return call
 
 
+_loopback = {}
+DEFAULT_MD = {'user-agent', 'grpc-accept-encoding', 'accept-encoding', 'content-type', 'te', 'grpc-timeout',
+              'grpc-encoding'}
+
+
+def loopback():
+    """an in-process gRPC server on 127.0.0.1 recording what really arrives (method, metadata, request)"""
+    if _loopback:
+        return _loopback
+    from concurrent import futures
+    import grpc
+    from deepproto.proto.poll.v1 import poll_pb2, poll_pb2_grpc
+    from deepproto.proto.tracepoint.v1 import tracepoint_pb2, tracepoint_pb2_grpc
+    seen = []
+
+    def md(context):
+        return [[k, v] for k, v in context.invocation_metadata() if k not in DEFAULT_MD]
+
+    class Poll(poll_pb2_grpc.PollConfigServicer):
+        def poll(self, request, context):
+            seen.append({'request': request, 'metadata': md(context), 'has_metadata_kw': True, 'bytes': 0})
+            return poll_pb2.PollResponse(response_type=poll_pb2.ResponseType.NO_CHANGE, ts_nanos=1)
+
+    class Snap(tracepoint_pb2_grpc.SnapshotServiceServicer):
+        def send(self, request, context):
+            seen.append({'request': request, 'metadata': md(context), 'has_metadata_kw': True, 'bytes': 0})
+            return tracepoint_pb2.SnapshotResponse()
+    server = grpc.server(futures.ThreadPoolExecutor(max_workers=2))
+    poll_pb2_grpc.add_PollConfigServicer_to_server(Poll(), server)
+    tracepoint_pb2_grpc.add_SnapshotServiceServicer_to_server(Snap(), server)
+    port = server.add_insecure_port('127.0.0.1:0')
+    if not port:
+        raise core.Infra('cannot bind a loopback port for the gRPC server')
+    server.start()
+    _loopback.update(server=server, port=port, seen=seen)
+    return _loopback
+
+
 def hand_snapshot(spec):
     """a small real EventSnapshot for the push path (attributes from the spec)"""
     from deep.api.tracepoint import EventSnapshot, TracePointConfig, StackFrame, Variable, VariableId, WatchResult
@@ -546,8 +581,16 @@ def run_auth(case):
     config = ConfigService(custom, tracepoints=TracepointConfigService())
     config.resource = Resource({k: mat_attr(v) for k, v in case['resource']})
     rec = []
-    grpc = GRPCService(config)
-    grpc.channel = FakeChannel(rec)
+    if case.get('transport') == 'grpc':
+        lb = loopback()
+        custom['SERVICE_URL'] = '127.0.0.1:%d' % lb['port']
+        custom['SERVICE_SECURE'] = 'False'
+        rec = lb['seen']
+        grpc = GRPCService(config)
+        grpc.start()                                  # the real channel
+    else:
+        grpc = GRPCService(config)
+        grpc.channel = FakeChannel(rec)
     out = []
     for i, op in enumerate(case['ops']):
         n = len(rec)
@@ -571,6 +614,8 @@ def run_auth(case):
         else:
             out.append({'kind': 'pushed', 'metadata': r['metadata'], 'has_metadata_kw': r['has_metadata_kw'],
                         'request': dump_msg(r['request']), 'op': op})
+    if case.get('transport') == 'grpc':
+        grpc.channel.close()
     return {'wire': out, 'stored_resource': [[T(k), pyval(v)] for k, v in config.resource.attributes.items()]}
 
 
@@ -685,7 +730,12 @@ def oracle(case, obs):
         elif w['kind'] == 'dropped':
             v.append(f'operation {i} ({w["op"]}) sent nothing')
         else:
-            if not w['has_metadata_kw'] or w['metadata'] is None:
+            if case.get('transport') == 'grpc' and w['metadata'] != exp:
+                v.append(f'operation {i} ({w["op"]}): the server received metadata {w["metadata"]}, the provider '
+                         f'supplies {exp}')
+            elif case.get('transport') == 'grpc':
+                pass
+            elif not w['has_metadata_kw'] or w['metadata'] is None:
                 v.append(f'operation {i} ({w["op"]}): request sent WITHOUT metadata; provider supplies {exp}')
             elif w['metadata'] != exp:
                 v.append(f'operation {i} ({w["op"]}): metadata {w["metadata"]}, the provider supplies {exp}')
@@ -695,11 +745,6 @@ def oracle(case, obs):
                 if got != want:
                     v += diff(got, want, f'poll {i} resource')[:2]
     return v[:6]
-
-
-def sent_snapshot_dump(w):
-    """the snapshot a pushed request was built from, reconstructed for the model from the request itself"""
-    return None
 
 
 def model_request(case, obs):
@@ -925,6 +970,14 @@ def gen_auth(rng, stream='main'):
               'resource': [gen_attr(rng, 20)] if rng.random() < 0.3 else []} for i in range(2)]
     case = {'kind': 'auth', 'stream': stream, 'cfg': cfg, 'ops': ops, 'snaps': snaps,
             'resource': [gen_attr(rng, 30 + i) for i in range(rng.choice([0, 1, 2]))]}
+    if rng.random() < 0.2:
+        # through a real channel to a loopback gRPC server (gRPC metadata must be ASCII with lower-case keys)
+        case['transport'] = 'grpc'
+        for k in ('username', 'password'):
+            if k in cfg and not cfg[k].isascii():
+                cfg[k] = 'ascii-' + k
+        if cfg.get('custom_md'):
+            cfg['custom_md'] = [[k2, v2 if v2.isascii() else 'org'] for k2, v2 in cfg['custom_md']]
     if stream == 'seq-none':
         if rng.random() < 0.5:
             case['resource'].append(['withnone', ['x', None]])
@@ -994,6 +1047,11 @@ def corpus():
                                                    'custom_md': [['authorization', 'Bearer t']]},
          'ops': ['push', 'poll'], 'resource': [],
          'snaps': [{'tp_id': 'tp0', 'ts': 1_700_000_000_000_000_000, 'attrs': [], 'resource': []}]},
+        {'kind': 'auth', 'stream': 'main', 'transport': 'grpc',
+         'cfg': {'provider': 'deep.api.auth.BasicAuthProvider', 'username': 'bob', 'password': 'obo'},
+         'ops': ['poll', 'push'], 'resource': [['service.name', 'svc']],
+         'snaps': [{'tp_id': 'tp0', 'ts': 1_700_000_000_000_000_000, 'attrs': [['t', {'tuple': ['a', None]}]],
+                    'resource': []}]},
     ]
 
 
@@ -1026,7 +1084,8 @@ def label(case, obs):
         return pre + ('refused-by-attributes' if not obs.get('held') else 'raised' if 'raised' in obs
                       else obs['any']['f'])
     p = case['cfg'].get('provider')
-    return pre + ('no-provider' if not p else 'basic' if p.endswith('BasicAuthProvider') else 'custom')
+    return pre + ('grpc-loopback/' if case.get('transport') == 'grpc' else '') + (
+        'no-provider' if not p else 'basic' if p.endswith('BasicAuthProvider') else 'custom')
 
 
 def nontrivial(case, obs):
